@@ -214,7 +214,7 @@ SUBCHECKS = {
         rule="case = stream multiset x utility set {none, inside-range levels}; non-trivial = both kinds of stream and at least one row that is not a stream bound "
              "(inserted by projection, pocket cutting or a utility level); outcomes = distinct cold-composite columns",
         cases=cases, run=run,
-        bound=lambda t: "multisets <=2 (K=4, dt {0,d/2}) x 2 utility sets + 3-multisets (dt=d/2, no latent)" if t == "quick"
+        bound=lambda t: "multisets <=2 (K=4, dt {0,d/2}) x 2 utility sets + 3-multisets (dt=d/2, no latent) + contributions equal to the lattice step + zero-crossing lattice" if t == "quick"
         else "multisets <=3 (K=4) + multisets <=2 (K=5, 3 contributions) with gliding inside-range utilities",
     ),
     "inserted_rows": SubCheck(
